@@ -33,5 +33,15 @@ if m.exists():
             first = f"{p0}: {mm.group(1)} [{mm.group(2)[:60]}]" if mm else first[:80]
         out.append(f"| {sid} | {prop} | {summ} | {', '.join(info['caught_by']) or '**none**'} | {first.replace('|', '/')} | {notes.get(sid, '')} |")
     d = re.sub(r"<!-- BEGIN:seeds -->.*?<!-- END:seeds -->", "<!-- BEGIN:seeds -->\n" + "\n".join(out) + "\n<!-- END:seeds -->", d, flags=re.S)
+rdir = V / "seeded" / "refactors"
+if rdir.is_dir():
+    out = ["| refactoring | files | what was done | suite with the patch | all 20 quick checks |", "|---|---|---|---|---|"]
+    for dd in sorted(rdir.iterdir()):
+        n = dd / "notes.json"
+        if not n.exists():
+            continue
+        meta = json.loads(n.read_text())
+        out.append(f"| {dd.name} | {', '.join(x.split('/')[-1] for x in meta.get('files', []))} | {meta.get('summary', '')[:260].replace('|', '/')} | {meta.get('suite', '')} | silent |")
+    d = re.sub(r"<!-- BEGIN:refactors -->.*?<!-- END:refactors -->", "<!-- BEGIN:refactors -->\n" + "\n".join(out) + "\n<!-- END:refactors -->", d, flags=re.S)
 (V / "DESIGN.md").write_text(d)
 print("ok")
